@@ -1,4 +1,5 @@
 import EaselModel.Pipeline.Ownership
+import EaselModel.Pipeline.Progress
 /-! # Lock discipline of the dsqdata pipeline model
 
 Each shared field of `ESL_DSQDATA` has one guarding mutex: `inbox[u]`, `inbox_eod[u]` ← `inbox_mutex[u]`; `outbox[u]`,
@@ -355,5 +356,855 @@ theorem step_private (s s' : Sys) (l : Label) (h : Inv s) (hs : step s l = some 
           (priv_nolane _ _ rfl (fun _ => ⟨rfl, rfl, rfl⟩)) (sameAll_signalRecycling _)
       exact ⟨fun _ => p.loader rfl, fun u _ => p.unp u (by simp)⟩
     · cases hs
+
+/-! ## reads: the wait conditions are evaluated on guarded fields only -/
+
+/-- `s` and `t` coincide on the thread-private variables and on every shared field guarded by a mutex in `L`
+    (they may differ arbitrarily in all other shared fields) -/
+structure AgreeOn (L : List Mutex) (s t : Sys) : Prop where
+  U : t.U = s.U
+  lpc : t.lpc = s.lpc
+  nalloc : t.nalloc = s.nalloc
+  limit : t.limit = s.limit
+  upc : ∀ u, (t.lane u).upc = (s.lane u).upc
+  inbox : ∀ u, Mutex.inbox u ∈ L → (t.lane u).inbox = (s.lane u).inbox ∧ (t.lane u).inEod = (s.lane u).inEod
+  outbox : ∀ u, Mutex.outbox u ∈ L → (t.lane u).outbox = (s.lane u).outbox ∧ (t.lane u).outEod = (s.lane u).outEod
+  nchunk : Mutex.nchunk ∈ L → t.nchunk = s.nchunk
+  recycling : Mutex.recycling ∈ L → t.recycling = s.recycling
+
+theorem held_agree (s t : Sys) (l : Label) (L : List Mutex) (h : AgreeOn L s t) (hn : Mutex.nchunk ∈ L ∨ (∀ c, l ≠ .read c) ∧ l ≠ .readWake) :
+    held t l = held s l := by
+  cases l with
+  | loader => simp only [held, h.lpc, h.nalloc, h.limit, h.U]
+  | unpacker u => simp only [held, h.upc u]
+  | read c =>
+    rcases hn with hn | hn
+    · simp only [held, h.nchunk hn, h.U]
+    · exact absurd rfl (hn.1 c)
+  | readWake =>
+    rcases hn with hn | hn
+    · simp only [held, h.nchunk hn, h.U]
+    · exact absurd rfl hn.2
+  | recycle c b k => rfl
+
+/-- **The `while (…) pthread_cond_wait` conditions read guarded fields only.** If two states agree on the acting thread's
+    private variables and on the shared fields guarded by the mutexes the step holds, the step holds the same mutexes in both
+    and its wait condition has the same value - whatever the other shared fields contain. -/
+theorem wait_condition_guarded (s t : Sys) (l : Label) (h : AgreeOn (held s l) s t) :
+    held t l = held s l ∧
+    (l = .loader → loaderBlocked t = loaderBlocked s) ∧
+    (∀ u, l = .unpacker u → unpBlocked t u = unpBlocked s u) ∧
+    ((∃ c, l = .read c) ∨ l = .readWake → readBlocked t = readBlocked s) := by
+  refine ⟨?_, ?_, ?_, ?_⟩
+  · apply held_agree s t l _ h
+    cases l with
+    | read c => left; simp [held]
+    | readWake => left; simp [held]
+    | loader => right; exact ⟨fun c => by simp, by simp⟩
+    | unpacker u => right; exact ⟨fun c => by simp, by simp⟩
+    | recycle c b k => right; exact ⟨fun c => by simp, by simp⟩
+  · intro e; subst e
+    have hl := h.lpc
+    simp only [loaderBlocked, hl, h.nalloc, h.limit, h.U]
+    cases hp : s.lpc with
+    | top =>
+      by_cases hc : s.nalloc < s.limit
+      · have : decide (s.nalloc ≥ s.limit) = false := by simp; omega
+        simp [this]
+      · have hr := h.recycling (by simp [held, hp, hc])
+        simp [hr]
+    | haveBuf b => rfl
+    | put b k =>
+      have := h.inbox (k % s.U) (by simp [held, hp])
+      simp [this.1]
+    | eod u =>
+      by_cases hc : u < s.U
+      · have := h.inbox u (by simp [held, hp]; omega)
+        simp [this.1]
+      · simp [hc]
+    | drain =>
+      by_cases hc : s.nalloc = 0
+      · simp [hc]
+      · have hr := h.recycling (by simp [held, hp, hc])
+        simp [hr]
+    | done => rfl
+  · intro u e; subst e
+    simp only [unpBlocked, h.upc u]
+    cases hp : (s.lane u).upc with
+    | get =>
+      have := h.inbox u (by simp [held, hp])
+      simp [this.1, this.2]
+    | put c =>
+      have := h.outbox u (by simp [held, hp])
+      simp [this.1]
+    | done => rfl
+  · intro e
+    have hm : Mutex.nchunk ∈ held s l ∧ Mutex.outbox (s.nchunk % s.U) ∈ held s l := by
+      rcases e with ⟨c, rfl⟩ | rfl <;> simp [held]
+    have hn := h.nchunk hm.1
+    have ho := h.outbox (s.nchunk % s.U) hm.2
+    simp only [readBlocked, hn, h.U, ho.1, ho.2]
+
+/-! ## reads and writes stay inside the lane the step works on -/
+
+theorem setLane_comm (s : Sys) (u v : Nat) (a b : Lane) (h : u ≠ v) :
+    (s.setLane v a).setLane u b = (s.setLane u b).setLane v a := by
+  simp only [Sys.setLane]
+  congr 1
+  exact List.set_comm a b (Ne.symm h)
+
+theorem lane_other (s : Sys) (u v : Nat) (a : Lane) (hv : v < s.lanes.length) (h : u ≠ v) : (s.setLane v a).lane u = s.lane u := by
+  rw [lane_setLane s v u a hv]; simp [h]
+
+@[simp] theorem loaderOnInbox_setLane (s : Sys) (u v : Nat) (a : Lane) : loaderOnInbox (s.setLane v a) u = loaderOnInbox s u := rfl
+
+/-- the part of `pthread_cond_signal(&inbox_cv[u])` / `(&outbox_cv[u])` that concerns unpacker `u` -/
+def sigU (s : Sys) (u : Nat) (g : UPc → Bool) : Sys :=
+  if (s.lane u).uwait.isSome && g (s.lane u).upc then s.setLane u { s.lane u with uwait := some true } else s
+
+theorem signalInbox_eq (s : Sys) (u : Nat) :
+    signalInbox s u = sigU (if s.lwait.isSome && loaderOnInbox s u then { s with lwait := some true } else s) u (· == .get) := rfl
+
+theorem signalOutbox_eq (s : Sys) (u : Nat) :
+    signalOutbox s u = sigU (if s.reader.isSome && s.nchunk % s.U == u then { s with rsig := true } else s) u (· != .get) := rfl
+
+theorem sigU_other (s : Sys) (u v : Nat) (a : Lane) (g : UPc → Bool) (hv : v < s.lanes.length) (h : u ≠ v) :
+    sigU (s.setLane v a) u g = (sigU s u g).setLane v a := by
+  unfold sigU
+  rw [lane_other s u v a hv h]
+  by_cases hc : ((s.lane u).uwait.isSome && g (s.lane u).upc) = true
+  · rw [if_pos hc, if_pos hc]; exact setLane_comm s u v a _ h
+  · rw [if_neg hc, if_neg hc]
+
+theorem signalInbox_other (s : Sys) (u v : Nat) (a : Lane) (hv : v < s.lanes.length) (h : u ≠ v) :
+    signalInbox (s.setLane v a) u = (signalInbox s u).setLane v a := by
+  rw [signalInbox_eq, signalInbox_eq]
+  simp only [setLane_lwait, loaderOnInbox_setLane]
+  by_cases hc : (s.lwait.isSome && loaderOnInbox s u) = true
+  · simp only [hc, ↓reduceIte]
+    exact sigU_other { s with lwait := some true } u v a _ hv h
+  · simp only [hc, ↓reduceIte]
+    exact sigU_other s u v a _ hv h
+
+theorem signalOutbox_other (s : Sys) (u v : Nat) (a : Lane) (hv : v < s.lanes.length) (h : u ≠ v) :
+    signalOutbox (s.setLane v a) u = (signalOutbox s u).setLane v a := by
+  rw [signalOutbox_eq, signalOutbox_eq]
+  simp only [setLane_reader, setLane_nchunk, setLane_U]
+  by_cases hc : (s.reader.isSome && s.nchunk % s.U == u) = true
+  · simp only [hc, ↓reduceIte]
+    exact sigU_other { s with rsig := true } u v a _ hv h
+  · simp only [hc, ↓reduceIte]
+    exact sigU_other s u v a _ hv h
+
+theorem signalRecycling_other (s : Sys) (v : Nat) (a : Lane) :
+    signalRecycling (s.setLane v a) = (signalRecycling s).setLane v a := by
+  unfold signalRecycling
+  simp only [setLane_lpc, setLane_lwait]
+  cases s.lpc <;> simp only <;> (try (by_cases hc : s.lwait.isSome = true <;> simp only [hc, if_true, if_false, Bool.false_eq_true] <;> rfl))
+
+/-- the lane whose boxes the critical section of step `l` works on (none for thread-local steps and the recycling stack) -/
+def actsOn (s : Sys) : Label → Option Nat
+  | .loader => match s.lpc with
+    | .put _ k => some (k % s.U)
+    | .eod u => some u
+    | _ => none
+  | .unpacker u => some u
+  | .read _ => some (s.nchunk % s.U)
+  | .readWake => some (s.nchunk % s.U)
+  | .recycle _ _ _ => none
+
+theorem stepLoader_other (s : Sys) (v : Nat) (a : Lane) (hv : v < s.lanes.length) (h : actsOn s .loader ≠ some v) :
+    stepLoader (s.setLane v a) = (stepLoader s).map (·.setLane v a) := by
+  unfold stepLoader
+  simp only [setLane_lpc]
+  cases hl : s.lpc with
+  | top =>
+    simp only [setLane_nalloc, setLane_limit, setLane_nextBuf, setLane_recycling]
+    by_cases hc : s.nalloc < s.limit
+    · simp only [hc, ↓reduceIte, Option.map]; rfl
+    · simp only [hc, ↓reduceIte]
+      cases s.recycling <;> rfl
+  | haveBuf b =>
+    simp only [setLane_nchunkL, setLane_T]
+    by_cases hc : s.nchunkL < s.T
+    · simp only [hc, ↓reduceIte, Option.map]; rfl
+    · simp only [hc, ↓reduceIte, Option.map]; rfl
+  | put b k =>
+    have hne : k % s.U ≠ v := by
+      intro e; apply h; simp [actsOn, hl, e]
+    simp only [setLane_U, lane_other s (k % s.U) v a hv hne]
+    by_cases hc : (s.lane (k % s.U)).inbox.isSome = true
+    · simp only [hc, ↓reduceIte, Option.map]; rfl
+    · simp only [hc, ↓reduceIte, Option.map, Bool.false_eq_true]
+      congr 1
+      have key := signalInbox_other (({ s with lwait := none, lpc := .top, nchunkL := k + 1 } : Sys).setLane (k % s.U)
+        { s.lane (k % s.U) with inbox := some (b, k) }) (k % s.U) v a (by simpa using hv) hne
+      rw [← setLane_comm _ (k % s.U) v a _ hne] at key
+      exact key
+  | eod w =>
+    have hne : w ≠ v := by
+      intro e; apply h; simp [actsOn, hl, e]
+    simp only [setLane_U]
+    by_cases hge : w ≥ s.U
+    · simp only [hge, ↓reduceIte, Option.map]; rfl
+    · simp only [hge, ↓reduceIte, lane_other s w v a hv hne]
+      by_cases hc : (s.lane w).inbox.isSome = true
+      · simp only [hc, ↓reduceIte, Option.map]; rfl
+      · simp only [hc, ↓reduceIte, Option.map, Bool.false_eq_true]
+        congr 1
+        have key := signalInbox_other (({ s with lwait := none, lpc := .eod (w + 1) } : Sys).setLane w
+          { s.lane w with inEod := true }) w v a (by simpa using hv) hne
+        rw [← setLane_comm _ w v a _ hne] at key
+        exact key
+  | drain =>
+    simp only [setLane_nalloc, setLane_recycling, setLane_freed]
+    by_cases hc : s.nalloc = 0
+    · simp only [hc, ↓reduceIte, Option.map]; rfl
+    · simp only [hc, ↓reduceIte]
+      cases s.recycling <;> rfl
+  | done => rfl
+
+theorem stepUnpacker_other (s : Sys) (u v : Nat) (a : Lane) (hv : v < s.lanes.length) (hne : u ≠ v) :
+    stepUnpacker (s.setLane v a) u = (stepUnpacker s u).map (·.setLane v a) := by
+  unfold stepUnpacker
+  simp only [setLane_U, lane_other s u v a hv hne]
+  by_cases hge : u ≥ s.U
+  · simp only [hge, ↓reduceIte, Option.map]
+  · simp only [hge, ↓reduceIte]
+    cases hp : (s.lane u).upc with
+    | get =>
+      simp only
+      by_cases hc : (!(s.lane u).inEod && (s.lane u).inbox.isNone) = true
+      · simp only [hc, ↓reduceIte, Option.map]
+        congr 1
+        exact setLane_comm s u v a _ hne
+      · simp only [hc, ↓reduceIte, Option.map, Bool.false_eq_true]
+        congr 1
+        by_cases hi : (s.lane u).inbox.isSome = true
+        · simp only [hi, ↓reduceIte]
+          have key := signalInbox_other (s.setLane u { s.lane u with inbox := none, upc := .put (s.lane u).inbox, uwait := none })
+            u v a (by simpa using hv) hne
+          rw [← setLane_comm _ u v a _ hne] at key
+          exact key
+        · simp only [hi, ↓reduceIte, Bool.false_eq_true]
+          exact setLane_comm s u v a _ hne
+    | put c =>
+      simp only
+      by_cases hc : (s.lane u).outbox.isSome = true
+      · simp only [hc, ↓reduceIte, Option.map]
+        congr 1
+        exact setLane_comm s u v a _ hne
+      · simp only [hc, ↓reduceIte, Option.map, Bool.false_eq_true]
+        congr 1
+        have key := signalOutbox_other (s.setLane u { s.lane u with outbox := c, outEod := (s.lane u).outEod || c.isNone, uwait := none, upc := if c.isSome then UPc.get else UPc.done })
+          u v a (by simpa using hv) hne
+        rw [← setLane_comm _ u v a _ hne] at key
+        exact key
+    | done => rfl
+
+theorem readBody_other (s : Sys) (c v : Nat) (a : Lane) (hv : v < s.lanes.length) (hne : s.nchunk % s.U ≠ v) :
+    readBody (s.setLane v a) c = (readBody s c).setLane v a := by
+  unfold readBody
+  simp only [setLane_nchunk, setLane_U, lane_other s (s.nchunk % s.U) v a hv hne]
+  by_cases hc : (!(s.lane (s.nchunk % s.U)).outEod && (s.lane (s.nchunk % s.U)).outbox.isNone) = true
+  · simp only [hc, ↓reduceIte]; rfl
+  · simp only [hc, ↓reduceIte, Bool.false_eq_true]
+    cases ho : (s.lane (s.nchunk % s.U)).outbox with
+    | none => rfl
+    | some bk =>
+      obtain ⟨b, k⟩ := bk
+      simp only
+      have key := signalOutbox_other (({ s with reader := none, nchunk := s.nchunk + 1, returned := s.returned ++ [k], cheld := (c, (b, k)) :: s.cheld } : Sys).setLane (s.nchunk % s.U)
+        { s.lane (s.nchunk % s.U) with outbox := none }) (s.nchunk % s.U) v a (by simpa using hv) hne
+      rw [← setLane_comm _ (s.nchunk % s.U) v a _ hne] at key
+      exact key
+
+/-- **Lane locality.** A step reads and writes no box but those of the lane its critical section works on: replacing the
+    whole lane `v` (inbox, outbox, EOD flags, even unpacker `v`'s private state) by anything else commutes with every step
+    that does not act on lane `v`. -/
+theorem step_lane_local (s : Sys) (l : Label) (v : Nat) (a : Lane) (hv : v < s.lanes.length) (h : actsOn s l ≠ some v) :
+    step (s.setLane v a) l = (step s l).map (·.setLane v a) := by
+  cases l with
+  | loader => exact stepLoader_other s v a hv h
+  | unpacker u => exact stepUnpacker_other s u v a hv (by intro e; apply h; simp [actsOn, e])
+  | read c =>
+    have hne : s.nchunk % s.U ≠ v := by intro e; apply h; simp [actsOn, e]
+    simp only [step, setLane_reader]
+    by_cases hr : s.reader.isSome = true
+    · simp only [hr, ↓reduceIte, Option.map]
+    · simp only [hr, ↓reduceIte, Option.map, Bool.false_eq_true]
+      congr 1
+      exact readBody_other s c v a hv hne
+  | readWake =>
+    have hne : s.nchunk % s.U ≠ v := by intro e; apply h; simp [actsOn, e]
+    simp only [step, setLane_reader]
+    cases s.reader with
+    | none => rfl
+    | some c => simp only [Option.map]; congr 1; exact readBody_other s c v a hv hne
+  | recycle c b k =>
+    simp only [step, setLane_cheld]
+    by_cases hm : (c, (b, k)) ∈ s.cheld
+    · simp only [hm, ↓reduceIte, Option.map]
+      congr 1
+      exact signalRecycling_other { s with cheld := s.cheld.erase (c, (b, k)), recycling := b :: s.recycling } v a
+    · simp only [hm, ↓reduceIte, Option.map]
+
+/-! ## the recycling stack and the shared counter are accessed only under their mutexes -/
+
+/-- overwrite the recycling stack / the shared chunk counter -/
+def Sys.setRecycling (s : Sys) (R : List Nat) : Sys := { s with recycling := R }
+def Sys.setNchunk (s : Sys) (n : Nat) : Sys := { s with nchunk := n }
+
+theorem sigU_setRecycling (s : Sys) (u : Nat) (g : UPc → Bool) (R : List Nat) :
+    sigU (s.setRecycling R) u g = (sigU s u g).setRecycling R := by
+  unfold sigU
+  have e : (s.setRecycling R).lane u = s.lane u := rfl
+  rw [e]
+  by_cases hc : ((s.lane u).uwait.isSome && g (s.lane u).upc) = true
+  · simp only [hc, ↓reduceIte]; rfl
+  · simp only [hc, ↓reduceIte, Bool.false_eq_true]
+
+theorem signalInbox_setRecycling (s : Sys) (u : Nat) (R : List Nat) :
+    signalInbox (s.setRecycling R) u = (signalInbox s u).setRecycling R := by
+  rw [signalInbox_eq, signalInbox_eq]
+  have e1 : (s.setRecycling R).lwait = s.lwait := rfl
+  have e2 : loaderOnInbox (s.setRecycling R) u = loaderOnInbox s u := rfl
+  rw [e1, e2]
+  by_cases hc : (s.lwait.isSome && loaderOnInbox s u) = true
+  · simp only [hc, ↓reduceIte]
+    exact sigU_setRecycling { s with lwait := some true } u _ R
+  · simp only [hc, ↓reduceIte]
+    exact sigU_setRecycling s u _ R
+
+theorem signalOutbox_setRecycling (s : Sys) (u : Nat) (R : List Nat) :
+    signalOutbox (s.setRecycling R) u = (signalOutbox s u).setRecycling R := by
+  rw [signalOutbox_eq, signalOutbox_eq]
+  have e1 : (s.setRecycling R).reader = s.reader := rfl
+  have e2 : (s.setRecycling R).nchunk = s.nchunk := rfl
+  have e3 : (s.setRecycling R).U = s.U := rfl
+  rw [e1, e2, e3]
+  by_cases hc : (s.reader.isSome && s.nchunk % s.U == u) = true
+  · simp only [hc, ↓reduceIte]
+    exact sigU_setRecycling { s with rsig := true } u _ R
+  · simp only [hc, ↓reduceIte]
+    exact sigU_setRecycling s u _ R
+
+theorem stepLoader_setRecycling (s : Sys) (R : List Nat) (h : Mutex.recycling ∉ held s .loader) :
+    stepLoader (s.setRecycling R) = (stepLoader s).map (·.setRecycling R) := by
+  unfold stepLoader
+  have el : (s.setRecycling R).lpc = s.lpc := rfl
+  rw [el]
+  cases hl : s.lpc with
+  | top =>
+    have hc : s.nalloc < s.limit := by
+      apply Classical.byContradiction; intro hn; apply h; simp [held, hl, hn]
+    have e1 : (s.setRecycling R).nalloc = s.nalloc := rfl
+    have e2 : (s.setRecycling R).limit = s.limit := rfl
+    simp only [e1, e2, hc, ↓reduceIte, Option.map]; rfl
+  | haveBuf b =>
+    have e1 : (s.setRecycling R).nchunkL = s.nchunkL := rfl
+    have e2 : (s.setRecycling R).T = s.T := rfl
+    simp only [e1, e2]
+    by_cases hc : s.nchunkL < s.T
+    · simp only [hc, ↓reduceIte, Option.map]; rfl
+    · simp only [hc, ↓reduceIte, Option.map]; rfl
+  | put b k =>
+    have e1 : (s.setRecycling R).U = s.U := rfl
+    have e2 : (s.setRecycling R).lane (k % s.U) = s.lane (k % s.U) := rfl
+    simp only [e1, e2]
+    by_cases hc : (s.lane (k % s.U)).inbox.isSome = true
+    · simp only [hc, ↓reduceIte, Option.map]; rfl
+    · simp only [hc, ↓reduceIte, Option.map, Bool.false_eq_true]
+      congr 1
+      exact signalInbox_setRecycling (({ s with lwait := none, lpc := .top, nchunkL := k + 1 } : Sys).setLane (k % s.U)
+        { s.lane (k % s.U) with inbox := some (b, k) }) (k % s.U) R
+  | eod w =>
+    have e1 : (s.setRecycling R).U = s.U := rfl
+    have e2 : (s.setRecycling R).lane w = s.lane w := rfl
+    simp only [e1, e2]
+    by_cases hge : w ≥ s.U
+    · simp only [hge, ↓reduceIte, Option.map]; rfl
+    · simp only [hge, ↓reduceIte]
+      by_cases hc : (s.lane w).inbox.isSome = true
+      · simp only [hc, ↓reduceIte, Option.map]; rfl
+      · simp only [hc, ↓reduceIte, Option.map, Bool.false_eq_true]
+        congr 1
+        exact signalInbox_setRecycling (({ s with lwait := none, lpc := .eod (w + 1) } : Sys).setLane w
+          { s.lane w with inEod := true }) w R
+  | drain =>
+    have hc : s.nalloc = 0 := by
+      apply Classical.byContradiction; intro hn; apply h; simp [held, hl, hn]
+    have e1 : (s.setRecycling R).nalloc = s.nalloc := rfl
+    simp only [e1, hc, ↓reduceIte, Option.map]; rfl
+  | done => rfl
+
+theorem stepUnpacker_setRecycling (s : Sys) (u : Nat) (R : List Nat) :
+    stepUnpacker (s.setRecycling R) u = (stepUnpacker s u).map (·.setRecycling R) := by
+  unfold stepUnpacker
+  have e1 : (s.setRecycling R).U = s.U := rfl
+  have e2 : (s.setRecycling R).lane u = s.lane u := rfl
+  simp only [e1, e2]
+  by_cases hge : u ≥ s.U
+  · simp only [hge, ↓reduceIte, Option.map]
+  · simp only [hge, ↓reduceIte]
+    cases hp : (s.lane u).upc with
+    | get =>
+      simp only
+      by_cases hc : (!(s.lane u).inEod && (s.lane u).inbox.isNone) = true
+      · simp only [hc, ↓reduceIte, Option.map]; rfl
+      · simp only [hc, ↓reduceIte, Option.map, Bool.false_eq_true]
+        congr 1
+        by_cases hi : (s.lane u).inbox.isSome = true
+        · simp only [hi, ↓reduceIte]
+          exact signalInbox_setRecycling (s.setLane u { s.lane u with inbox := none, upc := .put (s.lane u).inbox, uwait := none }) u R
+        · simp only [hi, ↓reduceIte, Bool.false_eq_true]; rfl
+    | put c =>
+      simp only
+      by_cases hc : (s.lane u).outbox.isSome = true
+      · simp only [hc, ↓reduceIte, Option.map]; rfl
+      · simp only [hc, ↓reduceIte, Option.map, Bool.false_eq_true]
+        congr 1
+        exact signalOutbox_setRecycling (s.setLane u { s.lane u with outbox := c, outEod := (s.lane u).outEod || c.isNone, uwait := none, upc := if c.isSome then UPc.get else UPc.done }) u R
+    | done => rfl
+
+theorem readBody_setRecycling (s : Sys) (c : Nat) (R : List Nat) :
+    readBody (s.setRecycling R) c = (readBody s c).setRecycling R := by
+  unfold readBody
+  have e1 : (s.setRecycling R).U = s.U := rfl
+  have e2 : (s.setRecycling R).nchunk = s.nchunk := rfl
+  have e3 : (s.setRecycling R).lane (s.nchunk % s.U) = s.lane (s.nchunk % s.U) := rfl
+  simp only [e1, e2, e3]
+  by_cases hc : (!(s.lane (s.nchunk % s.U)).outEod && (s.lane (s.nchunk % s.U)).outbox.isNone) = true
+  · simp only [hc, ↓reduceIte]; rfl
+  · simp only [hc, ↓reduceIte, Bool.false_eq_true]
+    cases ho : (s.lane (s.nchunk % s.U)).outbox with
+    | none => rfl
+    | some bk =>
+      obtain ⟨b, k⟩ := bk
+      simp only
+      exact signalOutbox_setRecycling (({ s with reader := none, nchunk := s.nchunk + 1, returned := s.returned ++ [k], cheld := (c, (b, k)) :: s.cheld } : Sys).setLane (s.nchunk % s.U)
+        { s.lane (s.nchunk % s.U) with outbox := none }) (s.nchunk % s.U) R
+
+/-- **The recycling stack is read and written only under `recycling_mutex`**: a step whose critical section does not hold
+    it commutes with any change of the stack. -/
+theorem step_recycling_local (s : Sys) (l : Label) (R : List Nat) (h : Mutex.recycling ∉ held s l) :
+    step (s.setRecycling R) l = (step s l).map (·.setRecycling R) := by
+  cases l with
+  | loader => exact stepLoader_setRecycling s R h
+  | unpacker u => exact stepUnpacker_setRecycling s u R
+  | read c =>
+    have e : (s.setRecycling R).reader = s.reader := rfl
+    simp only [step, e]
+    by_cases hr : s.reader.isSome = true
+    · simp only [hr, ↓reduceIte, Option.map]
+    · simp only [hr, ↓reduceIte, Option.map, Bool.false_eq_true]
+      congr 1
+      exact readBody_setRecycling s c R
+  | readWake =>
+    have e : (s.setRecycling R).reader = s.reader := rfl
+    simp only [step, e]
+    cases s.reader with
+    | none => rfl
+    | some c => simp only [Option.map]; congr 1; exact readBody_setRecycling s c R
+  | recycle c b k => exact absurd (by simp [held]) h
+
+theorem sigU_setNchunk (s : Sys) (u : Nat) (g : UPc → Bool) (n : Nat) :
+    sigU (s.setNchunk n) u g = (sigU s u g).setNchunk n := by
+  unfold sigU
+  have e : (s.setNchunk n).lane u = s.lane u := rfl
+  rw [e]
+  by_cases hc : ((s.lane u).uwait.isSome && g (s.lane u).upc) = true
+  · simp only [hc, ↓reduceIte]; rfl
+  · simp only [hc, ↓reduceIte, Bool.false_eq_true]
+
+theorem signalInbox_setNchunk (s : Sys) (u : Nat) (n : Nat) :
+    signalInbox (s.setNchunk n) u = (signalInbox s u).setNchunk n := by
+  rw [signalInbox_eq, signalInbox_eq]
+  have e1 : (s.setNchunk n).lwait = s.lwait := rfl
+  have e2 : loaderOnInbox (s.setNchunk n) u = loaderOnInbox s u := rfl
+  rw [e1, e2]
+  by_cases hc : (s.lwait.isSome && loaderOnInbox s u) = true
+  · simp only [hc, ↓reduceIte]
+    exact sigU_setNchunk { s with lwait := some true } u _ n
+  · simp only [hc, ↓reduceIte]
+    exact sigU_setNchunk s u _ n
+
+theorem signalOutbox_setNchunk (s : Sys) (u : Nat) (n : Nat) (hr : s.reader = none) :
+    signalOutbox (s.setNchunk n) u = (signalOutbox s u).setNchunk n := by
+  rw [signalOutbox_eq, signalOutbox_eq]
+  have e1 : (s.setNchunk n).reader = s.reader := rfl
+  rw [e1, hr]
+  simp only [Option.isSome_none, Bool.false_and, Bool.false_eq_true, ↓reduceIte]
+  exact sigU_setNchunk s u _ n
+
+theorem stepLoader_setNchunk (s : Sys) (n : Nat) :
+    stepLoader (s.setNchunk n) = (stepLoader s).map (·.setNchunk n) := by
+  unfold stepLoader
+  have el : (s.setNchunk n).lpc = s.lpc := rfl
+  rw [el]
+  cases hl : s.lpc with
+  | top =>
+    have e1 : (s.setNchunk n).nalloc = s.nalloc := rfl
+    have e2 : (s.setNchunk n).limit = s.limit := rfl
+    have e3 : (s.setNchunk n).recycling = s.recycling := rfl
+    simp only [e1, e2, e3]
+    by_cases hc : s.nalloc < s.limit
+    · simp only [hc, ↓reduceIte, Option.map]; rfl
+    · simp only [hc, ↓reduceIte]
+      cases s.recycling <;> rfl
+  | haveBuf b =>
+    have e1 : (s.setNchunk n).nchunkL = s.nchunkL := rfl
+    have e2 : (s.setNchunk n).T = s.T := rfl
+    simp only [e1, e2]
+    by_cases hc : s.nchunkL < s.T
+    · simp only [hc, ↓reduceIte, Option.map]; rfl
+    · simp only [hc, ↓reduceIte, Option.map]; rfl
+  | put b k =>
+    have e1 : (s.setNchunk n).U = s.U := rfl
+    have e2 : (s.setNchunk n).lane (k % s.U) = s.lane (k % s.U) := rfl
+    simp only [e1, e2]
+    by_cases hc : (s.lane (k % s.U)).inbox.isSome = true
+    · simp only [hc, ↓reduceIte, Option.map]; rfl
+    · simp only [hc, ↓reduceIte, Option.map, Bool.false_eq_true]
+      congr 1
+      exact signalInbox_setNchunk (({ s with lwait := none, lpc := .top, nchunkL := k + 1 } : Sys).setLane (k % s.U)
+        { s.lane (k % s.U) with inbox := some (b, k) }) (k % s.U) n
+  | eod w =>
+    have e1 : (s.setNchunk n).U = s.U := rfl
+    have e2 : (s.setNchunk n).lane w = s.lane w := rfl
+    simp only [e1, e2]
+    by_cases hge : w ≥ s.U
+    · simp only [hge, ↓reduceIte, Option.map]; rfl
+    · simp only [hge, ↓reduceIte]
+      by_cases hc : (s.lane w).inbox.isSome = true
+      · simp only [hc, ↓reduceIte, Option.map]; rfl
+      · simp only [hc, ↓reduceIte, Option.map, Bool.false_eq_true]
+        congr 1
+        exact signalInbox_setNchunk (({ s with lwait := none, lpc := .eod (w + 1) } : Sys).setLane w
+          { s.lane w with inEod := true }) w n
+  | drain =>
+    have e1 : (s.setNchunk n).nalloc = s.nalloc := rfl
+    have e3 : (s.setNchunk n).recycling = s.recycling := rfl
+    simp only [e1, e3]
+    by_cases hc : s.nalloc = 0
+    · simp only [hc, ↓reduceIte, Option.map]; rfl
+    · simp only [hc, ↓reduceIte]
+      cases s.recycling <;> rfl
+  | done => rfl
+
+theorem stepUnpacker_setNchunk (s : Sys) (u : Nat) (n : Nat) (hr : s.reader = none) :
+    stepUnpacker (s.setNchunk n) u = (stepUnpacker s u).map (·.setNchunk n) := by
+  unfold stepUnpacker
+  have e1 : (s.setNchunk n).U = s.U := rfl
+  have e2 : (s.setNchunk n).lane u = s.lane u := rfl
+  simp only [e1, e2]
+  by_cases hge : u ≥ s.U
+  · simp only [hge, ↓reduceIte, Option.map]
+  · simp only [hge, ↓reduceIte]
+    cases hp : (s.lane u).upc with
+    | get =>
+      simp only
+      by_cases hc : (!(s.lane u).inEod && (s.lane u).inbox.isNone) = true
+      · simp only [hc, ↓reduceIte, Option.map]; rfl
+      · simp only [hc, ↓reduceIte, Option.map, Bool.false_eq_true]
+        congr 1
+        by_cases hi : (s.lane u).inbox.isSome = true
+        · simp only [hi, ↓reduceIte]
+          exact signalInbox_setNchunk (s.setLane u { s.lane u with inbox := none, upc := .put (s.lane u).inbox, uwait := none }) u n
+        · simp only [hi, ↓reduceIte, Bool.false_eq_true]; rfl
+    | put c =>
+      simp only
+      by_cases hc : (s.lane u).outbox.isSome = true
+      · simp only [hc, ↓reduceIte, Option.map]; rfl
+      · simp only [hc, ↓reduceIte, Option.map, Bool.false_eq_true]
+        congr 1
+        exact signalOutbox_setNchunk (s.setLane u { s.lane u with outbox := c, outEod := (s.lane u).outEod || c.isNone, uwait := none, upc := if c.isSome then UPc.get else UPc.done }) u n hr
+    | done => rfl
+
+theorem signalRecycling_setNchunk (s : Sys) (n : Nat) : signalRecycling (s.setNchunk n) = (signalRecycling s).setNchunk n := by
+  unfold signalRecycling
+  have e1 : (s.setNchunk n).lpc = s.lpc := rfl
+  have e2 : (s.setNchunk n).lwait = s.lwait := rfl
+  rw [e1, e2]
+  cases s.lpc <;> simp only <;> (try (by_cases hc : s.lwait.isSome = true <;> simp only [hc, ↓reduceIte, Bool.false_eq_true] <;> rfl))
+
+/-- **The consumer-shared counter `nchunk` is read and written only under `nchunk_mutex`**: a step whose critical section
+    does not hold it (any step of the loader, an unpacker, `Recycle`) commutes with any change of the counter - provided no
+    consumer is asleep inside `Read` (`reader = none`; a sleeping consumer keeps `nchunk_mutex`, so nobody else could change
+    the counter then, and the model's `pthread_cond_signal(&outbox_cv[u])` looks at it only to find that sleeper). -/
+theorem step_nchunk_local (s : Sys) (l : Label) (n : Nat) (h : Mutex.nchunk ∉ held s l) (hr : s.reader = none) :
+    step (s.setNchunk n) l = (step s l).map (·.setNchunk n) := by
+  cases l with
+  | loader => exact stepLoader_setNchunk s n
+  | unpacker u => exact stepUnpacker_setNchunk s u n hr
+  | read c => exact absurd (by simp [held]) h
+  | readWake => exact absurd (by simp [held]) h
+  | recycle c b k =>
+    have e : (s.setNchunk n).cheld = s.cheld := rfl
+    simp only [step, e]
+    by_cases hm : (c, (b, k)) ∈ s.cheld
+    · simp only [hm, ↓reduceIte, Option.map]
+      congr 1
+      exact signalRecycling_setNchunk { s with cheld := s.cheld.erase (c, (b, k)), recycling := b :: s.recycling } n
+    · simp only [hm, ↓reduceIte, Option.map]
+
+/-! ## inside its own lane a step stays in the half whose mutex it holds -/
+
+/-- overwrite the outbox half / the inbox half of lane `u` (what `outbox_mutex[u]` / `inbox_mutex[u]` protect) -/
+def Sys.pokeOut (s : Sys) (u : Nat) (ob : Option Chunk) (oe : Bool) : Sys := s.setLane u { s.lane u with outbox := ob, outEod := oe }
+def Sys.pokeIn (s : Sys) (u : Nat) (ib : Option Chunk) (ie : Bool) : Sys := s.setLane u { s.lane u with inbox := ib, inEod := ie }
+
+theorem setLane_setLane (s : Sys) (u : Nat) (x y : Lane) : (s.setLane u x).setLane u y = s.setLane u y := by
+  simp only [Sys.setLane, List.set_set]
+
+theorem lane_self (s : Sys) (u : Nat) (a : Lane) (hu : u < s.lanes.length) : (s.setLane u a).lane u = a := by
+  rw [lane_setLane s u u a hu]; simp
+
+/-- `pokeOut` after replacing lane `u` by `L` -/
+theorem pokeOut_setLane (s : Sys) (u : Nat) (L : Lane) (ob : Option Chunk) (oe : Bool) (hu : u < s.lanes.length) :
+    (s.setLane u L).pokeOut u ob oe = s.setLane u { L with outbox := ob, outEod := oe } := by
+  unfold Sys.pokeOut
+  rw [lane_self s u L hu, setLane_setLane]
+
+theorem pokeIn_setLane (s : Sys) (u : Nat) (L : Lane) (ib : Option Chunk) (ie : Bool) (hu : u < s.lanes.length) :
+    (s.setLane u L).pokeIn u ib ie = s.setLane u { L with inbox := ib, inEod := ie } := by
+  unfold Sys.pokeIn
+  rw [lane_self s u L hu, setLane_setLane]
+
+theorem sigU_pokeOut (s : Sys) (u : Nat) (g : UPc → Bool) (ob : Option Chunk) (oe : Bool) (hu : u < s.lanes.length) :
+    sigU (s.pokeOut u ob oe) u g = (sigU s u g).pokeOut u ob oe := by
+  unfold sigU
+  have e : (s.pokeOut u ob oe).lane u = { s.lane u with outbox := ob, outEod := oe } := lane_self s u _ hu
+  rw [e]
+  by_cases hc : ((s.lane u).uwait.isSome && g (s.lane u).upc) = true
+  · simp only [hc, ↓reduceIte]
+    rw [pokeOut_setLane s u _ ob oe hu]
+    unfold Sys.pokeOut
+    rw [setLane_setLane]
+  · simp only [hc, ↓reduceIte, Bool.false_eq_true]
+
+theorem sigU_pokeIn (s : Sys) (u : Nat) (g : UPc → Bool) (ib : Option Chunk) (ie : Bool) (hu : u < s.lanes.length) :
+    sigU (s.pokeIn u ib ie) u g = (sigU s u g).pokeIn u ib ie := by
+  unfold sigU
+  have e : (s.pokeIn u ib ie).lane u = { s.lane u with inbox := ib, inEod := ie } := lane_self s u _ hu
+  rw [e]
+  by_cases hc : ((s.lane u).uwait.isSome && g (s.lane u).upc) = true
+  · simp only [hc, ↓reduceIte]
+    rw [pokeIn_setLane s u _ ib ie hu]
+    unfold Sys.pokeIn
+    rw [setLane_setLane]
+  · simp only [hc, ↓reduceIte, Bool.false_eq_true]
+
+theorem signalInbox_pokeOut (s : Sys) (u : Nat) (ob : Option Chunk) (oe : Bool) (hu : u < s.lanes.length) :
+    signalInbox (s.pokeOut u ob oe) u = (signalInbox s u).pokeOut u ob oe := by
+  rw [signalInbox_eq, signalInbox_eq]
+  have e1 : (s.pokeOut u ob oe).lwait = s.lwait := rfl
+  have e2 : loaderOnInbox (s.pokeOut u ob oe) u = loaderOnInbox s u := rfl
+  rw [e1, e2]
+  by_cases hc : (s.lwait.isSome && loaderOnInbox s u) = true
+  · simp only [hc, ↓reduceIte]
+    exact sigU_pokeOut { s with lwait := some true } u _ ob oe hu
+  · simp only [hc, ↓reduceIte]
+    exact sigU_pokeOut s u _ ob oe hu
+
+theorem signalOutbox_pokeIn (s : Sys) (u : Nat) (ib : Option Chunk) (ie : Bool) (hu : u < s.lanes.length) :
+    signalOutbox (s.pokeIn u ib ie) u = (signalOutbox s u).pokeIn u ib ie := by
+  rw [signalOutbox_eq, signalOutbox_eq]
+  have e1 : (s.pokeIn u ib ie).reader = s.reader := rfl
+  have e2 : (s.pokeIn u ib ie).nchunk = s.nchunk := rfl
+  have e3 : (s.pokeIn u ib ie).U = s.U := rfl
+  rw [e1, e2, e3]
+  by_cases hc : (s.reader.isSome && s.nchunk % s.U == u) = true
+  · simp only [hc, ↓reduceIte]
+    exact sigU_pokeIn { s with rsig := true } u _ ib ie hu
+  · simp only [hc, ↓reduceIte]
+    exact sigU_pokeIn s u _ ib ie hu
+
+theorem out0 (S : Sys) (u : Nat) (X L' L : Lane) (ob : Option Chunk) (oe : Bool) (hu : u < S.lanes.length)
+    (hL : L' = { L with outbox := ob, outEod := oe }) :
+    (S.setLane u X).setLane u L' = (S.setLane u L).pokeOut u ob oe := by
+  rw [setLane_setLane, hL, pokeOut_setLane S u L ob oe hu]
+
+theorem outI (S : Sys) (u : Nat) (X L' L : Lane) (ob : Option Chunk) (oe : Bool) (hu : u < S.lanes.length)
+    (hL : L' = { L with outbox := ob, outEod := oe }) :
+    signalInbox ((S.setLane u X).setLane u L') u = (signalInbox (S.setLane u L) u).pokeOut u ob oe := by
+  rw [out0 S u X L' L ob oe hu hL]
+  exact signalInbox_pokeOut _ u ob oe (by simpa using hu)
+
+theorem in0 (S : Sys) (u : Nat) (X L' L : Lane) (ib : Option Chunk) (ie : Bool) (hu : u < S.lanes.length)
+    (hL : L' = { L with inbox := ib, inEod := ie }) :
+    (S.setLane u X).setLane u L' = (S.setLane u L).pokeIn u ib ie := by
+  rw [setLane_setLane, hL, pokeIn_setLane S u L ib ie hu]
+
+theorem inO (S : Sys) (u : Nat) (X L' L : Lane) (ib : Option Chunk) (ie : Bool) (hu : u < S.lanes.length)
+    (hL : L' = { L with inbox := ib, inEod := ie }) :
+    signalOutbox ((S.setLane u X).setLane u L') u = (signalOutbox (S.setLane u L) u).pokeIn u ib ie := by
+  rw [in0 S u X L' L ib ie hu hL]
+  exact signalOutbox_pokeIn _ u ib ie (by simpa using hu)
+
+theorem stepLoader_pokeOut (s : Sys) (u : Nat) (ob : Option Chunk) (oe : Bool) (hu : u < s.lanes.length)
+    (h : actsOn s .loader = some u) :
+    stepLoader (s.pokeOut u ob oe) = (stepLoader s).map (·.pokeOut u ob oe) := by
+  unfold stepLoader
+  have el : (s.pokeOut u ob oe).lpc = s.lpc := rfl
+  rw [el]
+  cases hl : s.lpc with
+  | top => simp [actsOn, hl] at h
+  | haveBuf b => simp [actsOn, hl] at h
+  | drain => simp [actsOn, hl] at h
+  | done => simp [actsOn, hl] at h
+  | put b k =>
+    have hk : k % s.U = u := by simpa [actsOn, hl] using h
+    have e1 : (s.pokeOut u ob oe).U = s.U := rfl
+    have e2 : (s.pokeOut u ob oe).lane u = { s.lane u with outbox := ob, outEod := oe } := lane_self s u _ hu
+    simp only [e1, hk, e2]
+    by_cases hc : (s.lane u).inbox.isSome = true
+    · simp only [hc, ↓reduceIte, Option.map]; rfl
+    · simp only [hc, ↓reduceIte, Option.map, Bool.false_eq_true]
+      congr 1
+      exact outI ({ s with lwait := none, lpc := .top, nchunkL := k + 1 } : Sys) u { s.lane u with outbox := ob, outEod := oe }
+        _ { s.lane u with inbox := some (b, k) } ob oe hu rfl
+  | eod w =>
+    have hw : w = u := by simpa [actsOn, hl] using h
+    subst hw
+    have e1 : (s.pokeOut w ob oe).U = s.U := rfl
+    have e2 : (s.pokeOut w ob oe).lane w = { s.lane w with outbox := ob, outEod := oe } := lane_self s w _ hu
+    simp only [e1, e2]
+    by_cases hge : w ≥ s.U
+    · simp only [hge, ↓reduceIte, Option.map]; rfl
+    · simp only [hge, ↓reduceIte]
+      by_cases hc : (s.lane w).inbox.isSome = true
+      · simp only [hc, ↓reduceIte, Option.map]; rfl
+      · simp only [hc, ↓reduceIte, Option.map, Bool.false_eq_true]
+        congr 1
+        exact outI ({ s with lwait := none, lpc := .eod (w + 1) } : Sys) w { s.lane w with outbox := ob, outEod := oe }
+          _ { s.lane w with inEod := true } ob oe hu rfl
+
+theorem stepUnpacker_pokeOut (s : Sys) (u : Nat) (ob : Option Chunk) (oe : Bool) (hu : u < s.lanes.length)
+    (h : Mutex.outbox u ∉ held s (.unpacker u)) :
+    stepUnpacker (s.pokeOut u ob oe) u = (stepUnpacker s u).map (·.pokeOut u ob oe) := by
+  unfold stepUnpacker
+  have e1 : (s.pokeOut u ob oe).U = s.U := rfl
+  have e2 : (s.pokeOut u ob oe).lane u = { s.lane u with outbox := ob, outEod := oe } := lane_self s u _ hu
+  simp only [e1, e2]
+  by_cases hge : u ≥ s.U
+  · simp only [hge, ↓reduceIte, Option.map]
+  · simp only [hge, ↓reduceIte]
+    cases hp : (s.lane u).upc with
+    | get =>
+      simp only
+      by_cases hc : (!(s.lane u).inEod && (s.lane u).inbox.isNone) = true
+      · simp only [hc, ↓reduceIte, Option.map]
+        congr 1
+        exact out0 s u { s.lane u with outbox := ob, outEod := oe } _ { s.lane u with uwait := some false, upc := .get } ob oe hu rfl
+      · simp only [hc, ↓reduceIte, Option.map, Bool.false_eq_true]
+        congr 1
+        by_cases hi : (s.lane u).inbox.isSome = true
+        · simp only [hi, ↓reduceIte]
+          exact outI s u { s.lane u with outbox := ob, outEod := oe } _
+            { s.lane u with inbox := none, upc := .put (s.lane u).inbox, uwait := none } ob oe hu rfl
+        · simp only [hi, ↓reduceIte, Bool.false_eq_true]
+          exact out0 s u { s.lane u with outbox := ob, outEod := oe } _
+            { s.lane u with inbox := none, upc := .put (s.lane u).inbox, uwait := none } ob oe hu rfl
+    | put c => exact absurd (by simp [held, hp]) h
+    | done => rfl
+
+theorem stepUnpacker_pokeIn (s : Sys) (u : Nat) (ib : Option Chunk) (ie : Bool) (hu : u < s.lanes.length)
+    (h : Mutex.inbox u ∉ held s (.unpacker u)) :
+    stepUnpacker (s.pokeIn u ib ie) u = (stepUnpacker s u).map (·.pokeIn u ib ie) := by
+  unfold stepUnpacker
+  have e1 : (s.pokeIn u ib ie).U = s.U := rfl
+  have e2 : (s.pokeIn u ib ie).lane u = { s.lane u with inbox := ib, inEod := ie } := lane_self s u _ hu
+  simp only [e1, e2]
+  by_cases hge : u ≥ s.U
+  · simp only [hge, ↓reduceIte, Option.map]
+  · simp only [hge, ↓reduceIte]
+    cases hp : (s.lane u).upc with
+    | get => exact absurd (by simp [held, hp]) h
+    | put c =>
+      simp only
+      by_cases hc : (s.lane u).outbox.isSome = true
+      · simp only [hc, ↓reduceIte, Option.map]
+        congr 1
+        exact in0 s u { s.lane u with inbox := ib, inEod := ie } _ { s.lane u with uwait := some false, upc := .put c } ib ie hu rfl
+      · simp only [hc, ↓reduceIte, Option.map, Bool.false_eq_true]
+        congr 1
+        exact inO s u { s.lane u with inbox := ib, inEod := ie } _
+          { s.lane u with outbox := c, outEod := (s.lane u).outEod || c.isNone, uwait := none, upc := if c.isSome then UPc.get else UPc.done } ib ie hu rfl
+    | done => rfl
+
+theorem readBody_pokeIn (s : Sys) (c : Nat) (ib : Option Chunk) (ie : Bool) (hu : s.nchunk % s.U < s.lanes.length) :
+    readBody (s.pokeIn (s.nchunk % s.U) ib ie) c = (readBody s c).pokeIn (s.nchunk % s.U) ib ie := by
+  unfold readBody
+  have e1 : (s.pokeIn (s.nchunk % s.U) ib ie).U = s.U := rfl
+  have e2 : (s.pokeIn (s.nchunk % s.U) ib ie).nchunk = s.nchunk := rfl
+  have e3 : (s.pokeIn (s.nchunk % s.U) ib ie).lane (s.nchunk % s.U) = { s.lane (s.nchunk % s.U) with inbox := ib, inEod := ie } :=
+    lane_self s _ _ hu
+  simp only [e1, e2, e3]
+  by_cases hc : (!(s.lane (s.nchunk % s.U)).outEod && (s.lane (s.nchunk % s.U)).outbox.isNone) = true
+  · simp only [hc, ↓reduceIte]; rfl
+  · simp only [hc, ↓reduceIte, Bool.false_eq_true]
+    cases ho : (s.lane (s.nchunk % s.U)).outbox with
+    | none => rfl
+    | some bk =>
+      obtain ⟨b, k⟩ := bk
+      simp only
+      exact inO ({ s with reader := none, nchunk := s.nchunk + 1, returned := s.returned ++ [k], cheld := (c, (b, k)) :: s.cheld } : Sys)
+        (s.nchunk % s.U) { s.lane (s.nchunk % s.U) with inbox := ib, inEod := ie } _ { s.lane (s.nchunk % s.U) with outbox := none } ib ie hu rfl
+
+/-- **Half-lane locality.** Inside the lane its critical section works on, a step that holds `inbox_mutex[u]` only neither
+    reads nor writes `outbox[u]` / `outbox_eod[u]`, and a step that holds `outbox_mutex[u]` only neither reads nor writes
+    `inbox[u]` / `inbox_eod[u]`: it commutes with any change of the half it does not hold. -/
+theorem step_half_lane_local (s : Sys) (l : Label) (u : Nat) (hu : u < s.lanes.length) (ha : actsOn s l = some u) :
+    (∀ ob oe, Mutex.outbox u ∉ held s l → step (s.pokeOut u ob oe) l = (step s l).map (·.pokeOut u ob oe)) ∧
+    (∀ ib ie, Mutex.inbox u ∉ held s l → step (s.pokeIn u ib ie) l = (step s l).map (·.pokeIn u ib ie)) := by
+  cases l with
+  | loader =>
+    refine ⟨fun ob oe _ => stepLoader_pokeOut s u ob oe hu ha, fun ib ie h => ?_⟩
+    simp only [step]
+    unfold stepLoader
+    have el : (s.pokeIn u ib ie).lpc = s.lpc := rfl
+    rw [el]
+    cases hl : s.lpc with
+    | top => simp [actsOn, hl] at ha
+    | haveBuf b => simp [actsOn, hl] at ha
+    | drain => simp [actsOn, hl] at ha
+    | done => simp [actsOn, hl] at ha
+    | put b k =>
+      have hk : k % s.U = u := by simpa [actsOn, hl] using ha
+      exact absurd (by simp [held, hl, hk]) h
+    | eod w =>
+      have hw : w = u := by simpa [actsOn, hl] using ha
+      subst hw
+      have e1 : (s.pokeIn w ib ie).U = s.U := rfl
+      simp only [e1]
+      by_cases hge : w ≥ s.U
+      · simp only [hge, ↓reduceIte, Option.map]; rfl
+      · exact absurd (by simp [held, hl, hge]) h
+  | unpacker v =>
+    have hv : v = u := by simpa [actsOn] using ha
+    subst hv
+    exact ⟨fun ob oe h => stepUnpacker_pokeOut s v ob oe hu h, fun ib ie h => stepUnpacker_pokeIn s v ib ie hu h⟩
+  | read c =>
+    have hv : s.nchunk % s.U = u := by simpa [actsOn] using ha
+    subst hv
+    refine ⟨fun ob oe h => absurd (by simp [held]) h, fun ib ie _ => ?_⟩
+    have e : (s.pokeIn (s.nchunk % s.U) ib ie).reader = s.reader := rfl
+    simp only [step, e]
+    by_cases hr : s.reader.isSome = true
+    · simp only [hr, ↓reduceIte, Option.map]
+    · simp only [hr, ↓reduceIte, Option.map, Bool.false_eq_true]
+      congr 1
+      exact readBody_pokeIn s c ib ie hu
+  | readWake =>
+    have hv : s.nchunk % s.U = u := by simpa [actsOn] using ha
+    subst hv
+    refine ⟨fun ob oe h => absurd (by simp [held]) h, fun ib ie _ => ?_⟩
+    have e : (s.pokeIn (s.nchunk % s.U) ib ie).reader = s.reader := rfl
+    simp only [step, e]
+    cases s.reader with
+    | none => rfl
+    | some c => simp only [Option.map]; congr 1; exact readBody_pokeIn s c ib ie hu
+  | recycle c b k => simp [actsOn] at ha
 
 end EaselModel.Pipeline
